@@ -366,7 +366,7 @@ def run_kernel(ctx):
 
 
 VALUES_BAD = [True, False, None, float("nan"), float("inf"), float("-inf"), b"x", bytearray(b"y"), object]
-from ..ops import IntSub, FloatSub
+from ..ops import IntSub, FloatSub, StrSub
 
 # numerically equal values of different kinds must each render by their own str(): 7 / 7.0 / IntSub(7), 0.0 / -0.0, 1 / True-like enums
 VALUES_OK = [0, -1, 10**30, 1.5, -0.0, 0.0, 1e100, 0.1, Color.RED, Color.BIG, 7, 7.0, IntSub(7), FloatSub(7.0), IntSub(0), 1, 1.0, IntSub(1), 1000, 1e3, 2**64, 1e16, 1.7e18, -2.5e300, 1e-7]
@@ -395,6 +395,8 @@ def run_random(ctx):
 
     def val(allow_bad=True):
         k = r.random()
+        if k < 0.12:
+            return StrSub(sval())
         if k < 0.7:
             return sval()
         if k < 0.92 or not allow_bad:
